@@ -43,11 +43,11 @@ class Proof:
         self.st.frame.vars[name] = val
         return val
 
-    def use(self_, name, qualname, **args):
+    def use(self_, name, qualname, _returned=False, **args):
         self = self_
         """facts of a verified contract instantiated at args (see Verifier.use_contract); they are recorded under
         name[0], name[1], ... and name (conjunction)"""
-        proved = self.v.use_contract(self.st, qualname, **args)
+        proved = self.v.use_contract(self.st, qualname, _returned=_returned, **args)
         new = list(self.v.last_used_facts)
         for k, f in enumerate(new):
             self.facts["%s[%d]" % (name, k)] = f        # k = index of the ensures clause in the contract
